@@ -94,7 +94,20 @@ def broadcastAll (r : Req) : Control → List (Int × SlaveCtx) → Control × L
       let (c, l) := broadcastAll r ctl' rest
       (c, (k, s') :: l)
 
-/-- the `execute(request)` callback of the handlers: new world and the response to send, if any -/
+def allFrontends : List Frontend := [.syncTcp, .syncSerial, .syncUdp, .aioTcp, .aioUdp, .twistedTcp, .twistedUdp]
+
+def Frontend.name : Frontend → String
+  | .syncTcp => "syncTcp" | .syncSerial => "syncSerial" | .syncUdp => "syncUdp" | .aioTcp => "aioTcp"
+  | .aioUdp => "aioUdp" | .twistedTcp => "twistedTcp" | .twistedUdp => "twistedUdp"
+
+/-- what the catch-all around the receive call does, as written in the source: "close" = ends the handler loop /
+    closes the transport, "reset" = resets the framer and goes on.  (The sync UDP handler also ends its loop — but
+    socketserver builds a new handler for every datagram, so for the peer it is a reset.) -/
+def Frontend.onErrorSrc : Frontend → String
+  | .syncTcp | .aioTcp | .twistedTcp | .syncUdp => "close"
+  | .syncSerial | .aioUdp | .twistedUdp => "reset"
+
+/-- the execute(request) callback of the handlers: new world and the response to send, if any -/
 def callback (cfg : Cfg) (w : World) (r : Req) (uid : Nat) : World × Option Resp :=
   if cfg.broadcast && hasBroadcast cfg.frontend && uid == 0 then
     -- executed on every hosted unit, never answered (an exception stops the loop; nothing is sent)
